@@ -354,6 +354,71 @@ Section Proofs.
     apply seqnum_strictly_increases_ok. exact L.
   Qed.
 
+  (* ---- late subscribers ---- *)
+  Definition unique_indices (st : store keystr) : Prop := NoDup (map fst st).
+
+  Lemma update_indices : forall st (i j : idx) a, In j (map fst (upd st i a)) <-> j = i \/ In j (map fst st).
+  Proof.
+    induction st as [|[k c] r IH]; intros i j a; cbn [update map In fst].
+    - split; [intros [H|[]]; auto|intros [H|[]]; auto].
+    - destruct (index_eqb keystr keystr_eqb i k) eqn:E; cbn [map In fst].
+      + apply index_eqb_eq in E. subst k. split; [intros [H|H]; auto|intros [H|[H|H]]; auto].
+      + rewrite IH. split; [intros [H|[H|H]]; auto|intros [H|[H|H]]; auto].
+  Qed.
+
+  Lemma update_unique : forall st (i : idx) a, unique_indices st -> unique_indices (upd st i a).
+  Proof.
+    unfold unique_indices. induction st as [|[k c] r IH]; intros i a ND; cbn [update map fst].
+    - constructor; [intros []|constructor].
+    - inversion ND as [|? ? NI ND']; subst.
+      destruct (index_eqb keystr keystr_eqb i k) eqn:E; cbn [map fst].
+      + constructor; assumption.
+      + constructor; [|apply IH; exact ND'].
+        intros I. apply update_indices in I. destruct I as [->|I]; [|contradiction].
+        rewrite index_eqb_refl in E. discriminate.
+  Qed.
+
+  Lemma step_unique : forall (st : state) w st' v, stp st w = (st', v) ->
+    unique_indices (st_store st) -> unique_indices (st_store st').
+  Proof.
+    intros st w st' v E U. destruct (step_cases _ _ _ _ E) as [[_ ->]|[_ [key [a [_ [_ ->]]]]]]; [exact U|].
+    cbn [st_store]. apply update_unique. exact U.
+  Qed.
+
+  Lemma got_unique : forall batch (st : state), unique_indices (st_store st) -> unique_indices (st_store (fst (got st batch))).
+  Proof.
+    induction batch as [|w r IH]; intros st U; [exact U|].
+    rewrite got_cons. cbn [fst]. destruct (stp st w) as [st1 v] eqn:E. cbn [fst].
+    apply IH. eapply step_unique; eauto.
+  Qed.
+
+  Lemma lookup_iff_in : forall st (i : idx) a, unique_indices st -> (look st i = Some a <-> In (i, a) st).
+  Proof.
+    unfold unique_indices. induction st as [|[k c] r IH]; intros i a ND; cbn [lookup In].
+    - split; [discriminate|intros []].
+    - inversion ND as [|? ? NI ND']; subst.
+      destruct (index_eqb keystr keystr_eqb i k) eqn:E.
+      + apply index_eqb_eq in E. subst k. split.
+        * intros H. inversion H. auto.
+        * intros [H|H]; [inversion H; reflexivity|]. exfalso. apply NI. apply in_map_iff. exists (i, a). auto.
+      + rewrite (IH i a ND'). split; [auto|].
+        intros [H|H]; [|exact H]. inversion H; subst. rewrite index_eqb_refl in E. discriminate.
+  Qed.
+
+  (* what a late subscriber of service svc is told: for each key exactly the announcement held for (svc, key) *)
+  Lemma late_subscriber_gets_current_ok : forall evs svc ks a,
+    let st := fst (run_events verify parse_key canon decode keystr_eqb client subscribed empty_state evs) in
+    In (ks, a) (backlog st svc) <-> look (st_store st) (svc, ks) = Some a.
+  Proof.
+    intros evs svc ks a st.
+    assert (U : unique_indices (st_store st)).
+    { unfold st. rewrite run_events_batches, run_concat. apply got_unique. constructor. }
+    rewrite (lookup_iff_in _ _ _ U). unfold backlog. rewrite in_map_iff. split.
+    - intros [[[s k] b] [Q I]]. cbn in Q. inversion Q; subst. apply filter_In in I. destruct I as [I E].
+      cbn in E. apply N.eqb_eq in E. subst s. exact I.
+    - intros I. exists ((svc, ks), a). split; [reflexivity|]. apply filter_In. split; [exact I|]. cbn. apply N.eqb_refl.
+  Qed.
+
   (* reading `advance` for integer sequence numbers *)
   Lemma advance_int : forall old new o, advance old new -> a_seq old = SInt o ->
     exists n, a_seq new = SInt n /\ (o <= n)%Z /\ (n = o -> new = old).
